@@ -140,7 +140,7 @@ def codec_of(producer: str) -> str:
 
 # --------------------------------------------------------------------------- mutations of a complete frame
 
-MUTATIONS = ["none", "truncate", "bad_magic", "trailing", "crc", "isize", "second_frame", "empty"]
+MUTATIONS = ["none", "truncate", "cut_trailer", "bad_magic", "trailing", "crc", "isize", "second_frame", "empty"]
 
 
 def mutate(frame: bytes, codec: str, mutation: str, arg: int) -> tuple[bytes, str]:
@@ -156,6 +156,11 @@ def mutate(frame: bytes, codec: str, mutation: str, arg: int) -> tuple[bytes, st
             return frame, "none"
         cut = 1 + arg % (len(frame) - 1)  # keep 1 .. len-1 bytes
         return frame[:cut], "undecodable"
+    if mutation == "cut_trailer":  # gzip: drop CRC32+ISIZE (all data still there); zstd: drop the final byte
+        k = 8 if codec == "gzip" else 1
+        if len(frame) <= k:
+            return frame, "none"
+        return frame[:-k], "undecodable"
     if mutation == "empty":
         return b"", "undecodable"
     if mutation == "bad_magic":
